@@ -221,6 +221,20 @@ func (e *Engine) chanRecv(st *State, x *ssa.UnOp, ch Val) Val {
 	e.Assumed["channel receive abstracted: received value is arbitrary"] = true
 	ct := x.X.Type().Underlying().(*types.Chan)
 	v := e.freshVal(st, ct.Elem(), "recv")
+	// ghost counters since function entry: number of receives, and number of received interface values (errors) that were non-nil
+	tb := e.tb
+	rc, ok := st.Ghost["recvcount"]
+	if !ok {
+		rc = tb.Const("G0!recvcount", SInt)
+	}
+	e.setGhost(st, "recvcount", tb.Add(rc, tb.Int(1)))
+	if _, isI := ct.Elem().Underlying().(*types.Interface); isI && len(v.T) == 2 {
+		rn, ok := st.Ghost["recvnonnil"]
+		if !ok {
+			rn = tb.Const("G0!recvnonnil", SInt)
+		}
+		e.setGhost(st, "recvnonnil", tb.Add(rn, tb.Ite(tb.Neq(v.ifTag(), tb.Int(0)), tb.Int(1), tb.Int(0))))
+	}
 	if x.CommaOk {
 		return Val{Elems: []Val{v, scalar(e.tb.Fresh("recv_ok", SBool))}}
 	}
